@@ -247,6 +247,8 @@ class FT2(TD.FunctionTranslator):
                 b, tb = self.expr(r, env, H)
                 if tb == STR and ta in (STR, CHAR):
                     return neg("contains %s %s" % (_paren(b), _paren(self.coerce(e, a, ta, STR, H)))), BOOL
+                if tb == EMPTYLIST and ta in (STR, CHAR) and isinstance(r, ast.Name):
+                    tb = self.refine_list(e, r.id, STR, env)       # a `[]` first used in a membership test of a string
                 if tb == STRLIST and ta in (STR, CHAR):
                     return neg("mem_str %s %s" % (_paren(self.coerce(e, a, ta, STR, H)), _paren(b))), BOOL
                 self.fail(e, "membership of a %s in a %s" % (tname(ta), tname(tb)))
@@ -871,11 +873,629 @@ def render_web(repo=None):
                             TLD_EXTERNALS, TLD_IMPORTS)
 
 
+# ------------------------------------------------------------------ the keyboard-walk detector
+BOARD, BOARDLIST, CHARLIST, EMPTYDICT = "board", "boardlist", "charlist", "emptydict"
+ROW_KEYS = ["row1", "s_row1", "row2", "s_row2", "row3", "s_row3", "row4", "s_row4"]
+
+
+def REC(*fields):
+    """a dict literal with these constant keys and int values (in the order of the literal)"""
+    return ("rec",) + tuple(fields)
+
+
+def DICT(v):
+    """a dict keyed by strings (layout names) with values of type v"""
+    return ("dict", v)
+
+
+def KV(v):
+    return ("kv", v)
+
+
+def is_rec(t):
+    return isinstance(t, tuple) and t[0] == "rec"
+
+
+def is_dict(t):
+    return isinstance(t, tuple) and t[0] == "dict"
+
+
+POS = REC("row", "pos")
+RUN = REC("past_row", "past_pos", "cur_row", "cur_pos")
+RECORDS = [POS, RUN]
+
+
+def _coq_struct(t):
+    if is_rec(t):
+        return "(" + " * ".join("Z" for _ in t[1:]) + ")"
+    if is_dict(t):
+        return "dict %s" % _paren(coq_type(t[1]))
+    if isinstance(t, tuple) and t[0] == "kv":
+        return "(Str.str * %s)" % coq_type(t[1])
+    return None
+
+
+TD.EXTRA_COQ_TYPE_FUNS.append(_coq_struct)
+TD.EXTRA_COQ_TYPES.update({BOARD: "pyboard", BOARDLIST: "list pyboard", CHARLIST: "Str.str"})
+TD.TYPE_RANK.update({CHARLIST: 3.2, BOARDLIST: 8.7})
+TD.LIST_OF[BOARD] = BOARDLIST
+TD.ELEM[BOARDLIST] = BOARD
+TD.CONCRETE_LISTS.append(BOARDLIST)
+TD.LISTS = tuple(TD.LISTS) + (BOARDLIST,)
+LISTS = TD.LISTS
+for _v in RECORDS:
+    TD.ELEM[DICT(_v)] = KV(_v)
+
+RESERVED3 = set("""pyboard b_name b_rows brow dict d_get d_set d_has d_keys d_pop row_index mem_c mem_str filter
+existsb kb_us kb_jcuken""".split())
+
+
+def proj(text, i, n):
+    """component i of the n-tuple text ((a, b), c), ... as Gallina"""
+    t = _paren(text)
+    for _ in range(n - 1 - i if i > 0 else n - 1):
+        t = "(fst %s)" % t
+    return "snd %s" % t if i > 0 else t[1:-1] if n > 1 else text
+
+
+class FT3(FT2):
+    """FT2 plus what keyboard_walk.py needs:
+    types      board (the value of a zero-argument function that returns a dict literal
+               {'name': str, 'row1': [one-character strings], ..., 's_row4': [...]}), list of
+               boards, charlist (a list of one-character strings: `[]` / `[c]` / appended
+               characters), records (a dict literal with the constant keys of POS / RUN and int
+               values: a tuple of ints), dict (a dict keyed by strings whose values are records).
+    expressions board['name'], board['rowN'];  c in row, row.index(c) (ValueError -> raises);
+               record['field'];  k in d / k not in d, d[k] (KeyError -> raises), d.copy(),
+               list(d) for a dict d;  c in ['x', 'y'] for one character c;  ''.join(l), len(l),
+               l[i] for a charlist l;  [k for k in l if cond] for a list of strings l;
+               f(args) for a function of SPECS translated before (defaults filled in; the
+               function itself: recursion with fuel), evaluated before the statement;
+               `x is None` for a variable that is never None is False, and an `if` whose test
+               is then statically False is not translated (dead code).
+    statements d = {} ; d[k] = record;  d.pop(k, None);  for k in d / for k in list(d) /
+               for k, v in d.items() (the dict iterated directly must not change in the body);
+               l.append(c) for a charlist;  boards.append(f()) for a list of boards."""
+
+    REFUSED = tuple(x for x in TD.FunctionTranslator.REFUSED if x is not ast.ListComp)
+    MAX_PASSES = 12
+
+    def translate_once(self):
+        try:
+            return super().translate_once()
+        except TranslateError:
+            if self.retry:
+                return ""          # the type of a `[]` / `{}` was learnt in this pass: once more, with it
+            raise
+
+    def check_name(self, node, name):
+        super().check_name(node, name)
+        if name in RESERVED3:
+            self.fail(node, "the variable name %r collides with the generated code" % name)
+
+    # -------------------------------------------------------------- static tests
+    def static_false(self, e, env):
+        """the test is False whatever the values (only: `x is None` for x never None, and `or` of such)"""
+        if isinstance(e, ast.Compare) and len(e.ops) == 1 and isinstance(e.ops[0], ast.Is) \
+                and isinstance(e.comparators[0], ast.Constant) and e.comparators[0].value is None \
+                and isinstance(e.left, ast.Name):
+            t = env.types.get(e.left.id)
+            return t is not None and not is_opt(t) and t not in (NONE, LABEL, PV)
+        if isinstance(e, ast.BoolOp) and isinstance(e.op, ast.Or):
+            return all(self.static_false(v, env) for v in e.values)
+        return False
+
+    def if_(self, s, rest, env, ctx, ind, at):
+        if self.static_false(s.test, env):
+            text = self.line(ind, "(* dead code: the test is False for values of these types *)", s)
+            return text + self.block(list(s.orelse) + rest, env, ctx, ind, at)
+        return super().if_(s, rest, env, ctx, ind, at)
+
+    # -------------------------------------------------------------- calls of plain functions
+    def fun_spec(self, e, env):
+        if isinstance(e, ast.Call) and isinstance(e.func, ast.Name) and e.func.id not in env.types:
+            if e.func.id == self.fn.name and self.spec.get("recursive"):
+                return self.spec
+            sp = self.done.get(e.func.id)
+            if sp is not None and not sp.get("method") and (sp.get("defaults") or sp.get("recursive") or sp.get("expr_call")):
+                return sp
+        return None
+
+    def fun_call(self, e, env, H):
+        sp = self.fun_spec(e, env)
+        if e.keywords or any(isinstance(a, ast.Starred) for a in e.args):
+            self.fail(e, "keyword / starred arguments")
+        if sp.get("mutates"):
+            self.fail(e, "internal: a callee that mutates its argument")
+        nreq = len(sp["params"]) - len(sp.get("defaults", []))
+        if not nreq <= len(e.args) <= len(sp["params"]):
+            self.fail(e, "%d arguments, %s takes %d" % (len(e.args), sp["py"], len(sp["params"])))
+        args = []
+        for a, ty in zip(e.args, sp["params"]):
+            t, ta = self.expr(a, env, H)
+            if ta in (EMPTYDICT, EMPTYLIST) and (is_dict(ty) or ty == CHARLIST) and isinstance(a, ast.Name):
+                # a `{}` / `[]` whose type is given by the parameter it is passed for
+                if self.listtypes.get(a.id, ty) != ty:
+                    self.fail(a, "%r is used as containers of different types" % a.id)
+                self.listtypes[a.id] = ty
+                self.retry = True
+                env.types[a.id] = ta = ty
+            args.append(_paren(self.coerce(a, t, ta, ty, H)))
+        for d in sp.get("defaults", [])[len(e.args) - nreq:]:
+            args.append({True: "true", False: "false"}[d] if type(d) is bool else "%d" % d)
+        fuel = ""
+        if sp is self.spec:
+            fuel = "fuel_ "
+            self.uses_rec = True
+        elif sp.get("recursive"):
+            fuel = _paren(sp["fuel"].format(*args)) + " "
+        return "%s %s%s" % (sp["coq"], fuel, " ".join(args)), sp["ret"]
+
+    # -------------------------------------------------------------- expressions
+    def const_key(self, e):
+        return e.value if isinstance(e, ast.Constant) and type(e.value) is str else None
+
+    def expr(self, e, env, H):
+        if id(e) in getattr(self, "as_iter", {}):
+            return self.as_iter[id(e)]
+        # f(args)
+        if self.fun_spec(e, env) is not None:
+            head, ret = self.fun_call(e, env, H)
+            if is_tup(ret) or ret in LISTS:
+                self.fail(e, "a call that returns a tuple / a list must be a statement of its own")
+            return self.hoist(e, H, "call (%s)" % head, "v"), ret
+        # the zero-argument functions that return a layout
+        if isinstance(e, ast.Call) and isinstance(e.func, ast.Name) and e.func.id in self.boards \
+                and e.func.id not in env.types and not e.args and not e.keywords:
+            return self.boards[e.func.id], BOARD
+        if isinstance(e, ast.Dict):
+            keys = [self.const_key(k) for k in e.keys]
+            if not keys:
+                return "[]", EMPTYDICT
+            for r in RECORDS:
+                if tuple(keys) == r[1:] or sorted(keys) == sorted(r[1:]):
+                    vals = {}
+                    for k, v in zip(keys, e.values):
+                        t, ty = self.expr(v, env, H)
+                        if ty != Z:
+                            self.fail(e, "the field %r has type %s" % (k, tname(ty)))
+                        vals[k] = t
+                    return "(" + ", ".join(vals[k] for k in r[1:]) + ")", r
+            self.fail(e, "a dict literal with the keys %r is not a known record" % keys)
+        if isinstance(e, ast.Call) and isinstance(e.func, ast.Attribute) and not e.keywords:
+            f = e.func
+            if f.attr == "join" and isinstance(f.value, ast.Constant) and f.value.value == "" and len(e.args) == 1 \
+                    and not isinstance(e.args[0], ast.GeneratorExp):
+                v, tv = self.expr(e.args[0], env, H)
+                if tv == CHARLIST:
+                    return v, STR
+                if tv != STR:
+                    self.fail(e, "''.join of a value of type %s" % tname(tv))
+                return v, STR
+            if f.attr in ("copy", "index", "items"):
+                v, tv = self.expr(f.value, env, H)
+                if f.attr == "copy" and not e.args and is_dict(tv):
+                    return v, tv
+                if f.attr == "index" and len(e.args) == 1 and tv == STR:
+                    c, tc = self.expr(e.args[0], env, H)
+                    if tc != CHAR:
+                        self.fail(e, "index of a %s in a row" % tname(tc))
+                    return self.hoist(e, H, "call (row_index %s %s)" % (_paren(c), _paren(v)), "v"), Z
+                self.fail(e, "unsupported method .%s on a value of type %s" % (f.attr, tname(tv)))
+        if isinstance(e, ast.Call) and isinstance(e.func, ast.Name) and e.func.id == "len" and len(e.args) == 1 \
+                and not e.keywords and "len" not in env.types:
+            uid = self.uid
+            v, tv = self.expr(e.args[0], env, H)
+            if tv == CHARLIST:
+                return "len %s" % _paren(v), Z
+            self.uid = uid
+        if isinstance(e, ast.Call) and isinstance(e.func, ast.Name) and e.func.id == "list" and len(e.args) == 1 \
+                and not e.keywords and "list" not in env.types:
+            v, tv = self.expr(e.args[0], env, H)
+            if is_dict(tv):
+                return "d_keys %s" % _paren(v), STRLIST
+            self.fail(e, "list(...) of a value of type %s" % tname(tv))
+        if isinstance(e, ast.ListComp):
+            return self.list_comp(e, env, H)
+        if isinstance(e, ast.List) and len(e.elts) == 1:
+            uid = self.uid
+            t, ty = self.expr(e.elts[0], env, H)
+            if ty == CHAR:
+                return "[%s]" % t, CHARLIST
+            self.uid = uid
+        if isinstance(e, ast.Compare) and len(e.ops) == 1 and type(e.ops[0]) in (ast.In, ast.NotIn):
+            neg = (lambda t: "negb %s" % _paren(t)) if isinstance(e.ops[0], ast.NotIn) else (lambda t: t)
+            r = e.comparators[0]
+            uid = self.uid
+            a, ta = self.expr(e.left, env, H)
+            # c in ['q', 'Q']
+            if ta == CHAR and isinstance(r, ast.List) and r.elts and all(
+                    isinstance(x, ast.Constant) and type(x.value) is str and len(x.value) == 1 for x in r.elts):
+                return neg(" || ".join("(N.eqb %s %d%%N)" % (_paren(a), ord(x.value)) for x in r.elts)), BOOL
+            b, tb = self.expr(r, env, H)
+            if ta == CHAR and tb == STR:
+                return neg("mem_c %s %s" % (_paren(a), _paren(b))), BOOL
+            if ta == STR and is_dict(tb):
+                return neg("d_has %s %s" % (_paren(b), _paren(a))), BOOL
+            self.uid = uid
+        return super().expr(e, env, H)
+
+    def list_comp(self, e, env, H):
+        """[x for x in l if cond]  ->  filter (fun x => cond) l"""
+        if len(e.generators) != 1:
+            self.fail(e, "nested comprehension")
+        g = e.generators[0]
+        if g.is_async or not isinstance(g.target, ast.Name) or len(g.ifs) != 1 \
+                or not (isinstance(e.elt, ast.Name) and e.elt.id == g.target.id):
+            self.fail(e, "only [x for x in l if cond] is supported")
+        l, tl = self.expr(g.iter, env, H)
+        if tl != STRLIST:
+            self.fail(e, "comprehension over a value of type %s" % tname(tl))
+        x = g.target.id
+        self.check_name(e, x)
+        if x in env.types:
+            self.fail(e, "the comprehension variable %r is already bound" % x)
+        inner = env.copy()
+        inner.types[x] = STR
+        c = self.truth(g.ifs[0], inner, None)
+        return "filter (fun %s => %s) %s" % (x, c, _paren(l)), STRLIST
+
+    def truth(self, e, env, H):
+        if isinstance(e, ast.Name) and (is_dict(env.types.get(e.id))
+                                        or env.types.get(e.id) in (CHARLIST, OSTRLIST, BOARDLIST, EMPTYLIST, EMPTYDICT)):
+            return "nonempty %s" % e.id
+        return super().truth(e, env, H)
+
+    def subscript(self, e, env, H):
+        if isinstance(e.ctx, ast.Load):
+            uid = self.uid
+            v, tv = self.expr(e.value, env, H)
+            key = self.const_key(e.slice)
+            if tv == BOARD:
+                if key == "name":
+                    return "b_name %s" % _paren(v), STR
+                if key in ROW_KEYS:
+                    return "brow %s %d%%nat" % (_paren(v), ROW_KEYS.index(key)), STR
+                self.fail(e, "a layout may only be subscripted by 'name' and the row keys")
+            if is_rec(tv):
+                if key not in tv[1:]:
+                    self.fail(e, "the record has no field %r" % (key,))
+                return proj(v, tv[1:].index(key), len(tv) - 1), Z
+            if is_dict(tv):
+                k, tk = self.expr(e.slice, env, H)
+                if tk != STR:
+                    self.fail(e, "a dict subscripted by a %s" % tname(tk))
+                return self.hoist(e, H, "call (d_get %s %s)" % (_paren(v), _paren(k)), "v"), tv[1]
+            if tv == CHARLIST and not isinstance(e.slice, ast.Slice):
+                i, ti = self.expr(e.slice, env, H)
+                if ti != Z:
+                    self.fail(e, "index of type %s" % tname(ti))
+                return self.hoist(e, H, "sub_s %s %s" % (_paren(v), _paren(i)), "c"), CHAR
+            self.uid = uid
+        return super().subscript(e, env, H)
+
+    # -------------------------------------------------------------- statements
+    def bind_var(self, node, name, ty, env, owned=False):
+        old = env.types.get(name)
+        if old in (EMPTYLIST, EMPTYDICT) and (is_dict(ty) or ty == CHARLIST):
+            # `x = []` / `x = {}` that turns out to hold a dict / characters
+            if self.listtypes.get(name, ty) != ty:
+                self.fail(node, "%r is used as containers of different types" % name)
+            if self.listtypes.get(name) != ty:
+                self.listtypes[name] = ty
+                self.retry = True
+            del env.types[name]
+        super().bind_var(node, name, ty, env, owned)
+
+    def assign(self, s, rest, env, ctx, ind, at):
+        if len(s.targets) != 1:
+            self.fail(s, "multiple assignment targets")
+        t, v = s.targets[0], s.value
+        # a, b, c = f(...) / x = f(...) for a function with defaults / recursion
+        if self.fun_spec(v, env) is not None:
+            H = []
+            head, ret = self.fun_call(v, env, H)
+            targets = list(t.elts) if isinstance(t, ast.Tuple) else [t]
+            rets = list(ret[1:]) if is_tup(ret) else [ret]
+            if len(targets) != len(rets):
+                self.fail(s, "%d targets for %d returned values" % (len(targets), len(rets)))
+            names = []
+            for x, ty in zip(targets, rets):
+                if not isinstance(x, ast.Name) or x.id in names:
+                    self.fail(s, "unsupported assignment target")
+                self.bind_var(s, x.id, ty, env)
+                names.append(x.id)
+            text = self.line(ind, "call (%s) (fun %s =>" % (head, tuple_text(names)[1]), s)
+            text += _close(self.block(rest, env, ctx, ind, at), ")")
+            return self.wrap(H, ind, text)
+        if isinstance(t, ast.Name):
+            x = t.id
+            # x = {} / x = [] with a learnt type
+            if (isinstance(v, ast.Dict) and not v.keys) or (isinstance(v, ast.List) and not v.elts):
+                lt = self.listtypes.get(x)
+                if lt is not None and (is_dict(lt) or lt == CHARLIST):
+                    self.check_name(s, x)
+                    env.types.pop(x, None)
+                    self.bind_var(s, x, lt, env, owned=True)
+                    return self.line(ind, "let %s := @nil %s in" % (x, _paren(coq_type(KV(lt[1])) if is_dict(lt) else "N")), s) + \
+                        self.block(rest, env, ctx, ind, at)
+                if isinstance(v, ast.Dict):
+                    self.check_name(s, x)
+                    self.bind_var(s, x, EMPTYDICT, env, owned=True)
+                    return self.line(ind, "let %s := [] in" % x, s) + self.block(rest, env, ctx, ind, at)
+            # x = <dict / charlist / list of strings expression> (a copy, a comprehension, [c]): a fresh object
+            if isinstance(v, (ast.ListComp, ast.List, ast.Call)) and not self.callee(v, env):
+                H = []
+                uid = self.uid
+                try:
+                    text, ty = self.expr(v, env, H)
+                except TranslateError:
+                    ty = None
+                if ty is not None and (is_dict(ty) or ty == CHARLIST or (ty == STRLIST and isinstance(v, ast.ListComp))):
+                    self.bind_var(s, x, ty, env, owned=True)
+                    out = self.line(ind, "let %s := %s in" % (x, text), s)
+                    return self.wrap(H, ind, out + self.block(rest, env, ctx, ind, at))
+                self.uid = uid
+            # x = d[k]: a record (immutable here: nothing can store into it)
+            if isinstance(v, ast.Subscript):
+                H = []
+                uid = self.uid
+                try:
+                    text, ty = self.expr(v, env, H)
+                except TranslateError:
+                    ty = None
+                if ty is not None and is_rec(ty):
+                    self.bind_var(s, x, ty, env)
+                    out = self.line(ind, "let %s := %s in" % (x, text), s)
+                    return self.wrap(H, ind, out + self.block(rest, env, ctx, ind, at))
+                self.uid = uid
+        # d[k] = record
+        if isinstance(t, ast.Subscript) and isinstance(t.value, ast.Name) and not isinstance(t.slice, ast.Slice):
+            x = t.value.id
+            tx = env.types.get(x)
+            if tx == EMPTYDICT or is_dict(tx):
+                if x not in env.owned:
+                    self.fail(s, "a store into a dict the function does not own")
+                H = []
+                k, tk = self.expr(t.slice, env, H)
+                if tk != STR:
+                    self.fail(s, "a dict keyed by a %s" % tname(tk))
+                e, te = self.expr(v, env, H)
+                if not is_rec(te):
+                    self.fail(s, "a dict value of type %s" % tname(te))
+                if tx == EMPTYDICT:
+                    self.bind_var(s, x, DICT(te), env, owned=True)
+                elif tx != DICT(te):
+                    self.fail(s, "%r holds values of different types" % x)
+                out = self.line(ind, "let %s := d_set %s %s %s in" % (x, x, _paren(k), _paren(e)), s)
+                return self.wrap(H, ind, out + self.block(rest, env, ctx, ind, at))
+        return super().assign(s, rest, env, ctx, ind, at)
+
+    def effect(self, s, rest, env, ctx, ind, at):
+        c = s.value
+        if isinstance(c, ast.Call) and isinstance(c.func, ast.Attribute) and isinstance(c.func.value, ast.Name) \
+                and not c.keywords:
+            x, attr = c.func.value.id, c.func.attr
+            tx = env.types.get(x)
+            # d.pop(k, None)
+            if attr == "pop" and is_dict(tx):
+                if len(c.args) != 2 or not (isinstance(c.args[1], ast.Constant) and c.args[1].value is None):
+                    self.fail(s, "only d.pop(key, None) is supported")
+                if x not in env.owned:
+                    self.fail(s, "pop on a dict the function does not own")
+                H = []
+                k, tk = self.expr(c.args[0], env, H)
+                if tk != STR:
+                    self.fail(s, "a dict keyed by a %s" % tname(tk))
+                out = self.line(ind, "let %s := d_pop %s %s in" % (x, x, _paren(k)), s)
+                return self.wrap(H, ind, out + self.block(rest, env, ctx, ind, at))
+            if attr == "append" and len(c.args) == 1 and x in env.owned:
+                uid = self.uid
+                try:
+                    _, te = self.expr(c.args[0], env, [])
+                except TranslateError:
+                    te = None
+                finally:
+                    self.uid = uid
+                # l.append(c): a list of characters
+                if te == CHAR and tx in (EMPTYLIST, CHARLIST):
+                    H = []
+                    e, _ = self.expr(c.args[0], env, H)
+                    if tx == EMPTYLIST:
+                        self.bind_var(s, x, CHARLIST, env, owned=True)
+                    out = self.line(ind, "let %s := %s ++ [%s] in" % (x, x, e), s)
+                    return self.wrap(H, ind, out + self.block(rest, env, ctx, ind, at))
+        return super().effect(s, rest, env, ctx, ind, at)
+
+    def assigned(self, stmts):
+        out = super().assigned(stmts)
+        for s in stmts:
+            for n in ast.walk(s):
+                if isinstance(n, ast.Call) and isinstance(n.func, ast.Attribute) and n.func.attr == "pop" \
+                        and isinstance(n.func.value, ast.Name) and n.func.value.id not in out:
+                    out.append(n.func.value.id)
+        return out
+
+    def for_(self, s, rest, env, ctx, ind, at):
+        it = s.iter
+        # for k, v in d.items()
+        if isinstance(it, ast.Call) and isinstance(it.func, ast.Attribute) and it.func.attr == "items" \
+                and not it.args and not it.keywords:
+            return self.for_items(s, rest, env, ctx, ind, at)
+        uid = self.uid
+        try:
+            text, ty = self.expr(it, env, [])
+        except TranslateError:
+            ty = None
+        finally:
+            self.uid = uid
+        if ty == CHARLIST or is_dict(ty):
+            if is_dict(ty):
+                if not isinstance(it, ast.Name):
+                    self.fail(s, "unsupported iteration over a dict expression")
+                if it.id in self.assigned(list(s.body)):
+                    self.fail(s, "the iterated dict is changed in the loop")
+            self.as_iter = getattr(self, "as_iter", {})
+            self.as_iter[id(it)] = (text, STR) if ty == CHARLIST else ("d_keys %s" % _paren(text), STRLIST)
+            try:
+                return super().for_(s, rest, env, ctx, ind, at)
+            finally:
+                del self.as_iter[id(it)]
+        return super().for_(s, rest, env, ctx, ind, at)
+
+    def for_items(self, s, rest, env, ctx, ind, at):
+        if s.orelse:
+            self.fail(s, "for ... else")
+        tg = s.target
+        if not (isinstance(tg, ast.Tuple) and len(tg.elts) == 2 and all(isinstance(x, ast.Name) for x in tg.elts)):
+            self.fail(s, "`for k, v in d.items()` needs two plain targets")
+        H = []
+        names = self.loop_state(s, env)
+        d, td = self.expr(s.iter.func.value, env, H)
+        if not is_dict(td):
+            self.fail(s, ".items() of a value of type %s" % tname(td))
+        if isinstance(s.iter.func.value, ast.Name) and s.iter.func.value.id in self.assigned(list(s.body)):
+            self.fail(s, "the iterated dict is changed in the loop")
+        k, v = tg.elts[0].id, tg.elts[1].id
+        inner = env.copy()
+        for n, ty in ((k, STR), (v, td[1])):
+            if n in env.types:
+                self.fail(s, "the loop variable %r is already bound" % n)
+            self.check_name(s, n)
+            inner.types[n] = ty
+        if k == v:
+            self.fail(s, "loop variables collide")
+        self.loopvars.extend([k, v])
+        try:
+            tup, pat = tuple_text(names)
+            text = self.line(ind, "bind (for_each %s %s (fun '(%s, %s) %s =>" % (_paren(d), _paren(tup), k, v, pat), s)
+            text += _close(self.block(list(s.body), inner, Ctx(names, names), ind + 2, s), ")) (fun %s =>" % pat)
+        finally:
+            del self.loopvars[-2:]
+        self.after_loop(s, names, env, inner)
+        text += _close(self.block(rest, env, ctx, ind, at), ")")
+        return self.wrap(H, ind, text)
+
+
+KB_FILE = D + "keyboard_walk.py"
+KB_BOARDS = [("_get_us_keyboard", "kb_us"), ("_get_jcuken_keyboard", "kb_jcuken")]
+KB_SPECS = [
+    dict(file=KB_FILE, py="find_keyboard_row_column", coq="py_find_keyboard_row_column",
+         params=[CHAR, BOARDLIST], ret=DICT(POS), expr_call=True),
+    dict(file=KB_FILE, py="is_next_on_keyboard", coq="py_is_next_on_keyboard",
+         params=[DICT(POS), DICT(POS)], ret=DICT(RUN), expr_call=True),
+    dict(file=KB_FILE, py="interesting_keyboard", coq="py_interesting_keyboard",
+         params=[CHARLIST], ret=BOOL, expr_call=True),
+    dict(file=KB_FILE, py="detect_keyboard_walk", coq="py_detect_keyboard_walk", recursive=True,
+         fuel="S (length {0})", params=[STR, Z], defaults=[4], ret=TUP(SECLIST, STRLIST, STRLIST)),
+]
+
+
+def board_literal(path, fn, coq):
+    """def f(): \"\"\"doc\"\"\"; x = {'name': str, 'row1': [chars], ...}; return x   ->   a pyboard"""
+    def fail(node, msg):
+        raise TranslateError("%s:%d: %s: %s  [%s]" % (path, getattr(node, "lineno", fn.lineno), fn.name, msg,
+                                                      _comment(ast.unparse(node)).split("\n")[0][:100]))
+    a = fn.args
+    if fn.decorator_list or a.args or a.vararg or a.kwarg or a.kwonlyargs or a.posonlyargs or fn.returns:
+        fail(fn, "the function must take no argument")
+    body = [s for s in fn.body if not (isinstance(s, ast.Expr) and isinstance(s.value, ast.Constant)
+                                       and type(s.value.value) is str)]
+    lit = None
+    if len(body) == 1 and isinstance(body[0], ast.Return) and isinstance(body[0].value, ast.Dict):
+        lit = body[0].value
+    elif len(body) == 2 and isinstance(body[0], ast.Assign) and len(body[0].targets) == 1 \
+            and isinstance(body[0].targets[0], ast.Name) and isinstance(body[0].value, ast.Dict) \
+            and isinstance(body[1], ast.Return) and isinstance(body[1].value, ast.Name) \
+            and body[1].value.id == body[0].targets[0].id:
+        lit = body[0].value
+    if lit is None:
+        fail(fn, "the function must return a dict literal")
+    try:
+        d = ast.literal_eval(lit)
+    except Exception:
+        fail(lit, "the dict literal is not constant")
+    if len(d) != len(lit.keys) or sorted(d) != sorted(["name"] + ROW_KEYS):
+        fail(lit, "the keys must be 'name' and %s" % ", ".join(ROW_KEYS))
+    if type(d["name"]) is not str:
+        fail(lit, "'name' must be a string")
+    rows = []
+    for k in ROW_KEYS:
+        if type(d[k]) is not list or not all(type(x) is str and len(x) == 1 for x in d[k]):
+            fail(lit, "%r must be a list of one-character strings" % k)
+        rows.append(cstr("".join(d[k])))
+    sha = hashlib.sha256(ast.dump(fn, include_attributes=False).encode("utf-8")).hexdigest()
+    return ("(* %s  def %s  lines %d-%d\n   sha256 of ast.dump: %s *)\n"
+            "Definition %s : pyboard :=\n  {| b_name := %s;\n     b_rows := [%s] |}.\n"
+            % (KB_FILE, fn.name, fn.lineno, fn.end_lineno, sha, coq, cstr(d["name"]), ";\n                ".join(rows)))
+
+
+KB_HEAD = """(* GENERATED by harness/translate_detect2.py from the Python source of the current
+   working tree (lib_trainer/detection_rules/keyboard_walk.py) on every run of a check.
+   Do not edit.  Each definition is the line-by-line image of one Python function in the
+   subset documented in the translator; the numbers in the comments are source lines.
+   theories/DetectGenProofsKbd.v proves these definitions equal to the hand-written
+   model of theories/Detect.v. *)
+From Coq Require Import List ZArith NArith Bool.
+From Pcfg Require Import Str Multiword Detect DetectRt DetectRt2.
+Import ListNotations.
+Open Scope Z_scope.
+
+"""
+KB_SECTION = """Section DetectKbdGen.
+(* what the Python runtime decides about one character (oracles, as in Detect.v) *)
+Variables isalpha isdigit : N -> bool.
+Variable lower_c : N -> Str.str.
+Notation lower := (Multiword.lower lower_c).
+
+"""
+
+
+def render_kbd(repo=None):
+    repo = repo or common.REPO
+    path, tree = load(repo, KB_FILE)
+    names = [s["py"] for s in KB_SPECS] + [b for b, _ in KB_BOARDS]
+    # the module may end with an `if __name__ == "__main__":` block (a script entry point that only runs
+    # when the file is executed, never when it is imported): it is not looked at
+    body = list(tree.body)
+    if body and isinstance(body[-1], ast.If) and ast.unparse(body[-1].test) in ("__name__ == '__main__'",):
+        tree = ast.Module(body=body[:-1], type_ignores=[])
+    old = set(TD.BUILTINS_USED)
+    TD.BUILTINS_USED.update({"range", "list"})
+    try:
+        defs = check_module(path, tree, names)
+    finally:
+        TD.BUILTINS_USED.clear()
+        TD.BUILTINS_USED.update(old)
+    extra = sorted(set(defs) - set(names))
+    if extra:
+        raise TranslateError("%s: functions the translator does not know: %r" % (path, extra))
+    parts, done = [], {}
+    boards = {}
+    for py, coq in KB_BOARDS:
+        fn = defs.get(py)
+        if not isinstance(fn, ast.FunctionDef):
+            raise TranslateError("%s: def %s not found" % (path, py))
+        parts.append(board_literal(path, fn, coq))
+        boards[py] = coq
+    parts.append(KB_SECTION.rstrip("\n") + "\n")
+    for spec in KB_SPECS:
+        fn = defs.get(spec["py"])
+        if not isinstance(fn, ast.FunctionDef):
+            raise TranslateError("%s: def %s not found" % (path, spec["py"]))
+        ft = FT3(path, KB_FILE, fn, spec, dict(done))
+        ft.boards = boards
+        parts.append(ft.translate())
+        done[spec["py"]] = spec
+    return KB_HEAD + "\n".join(parts) + "\nEnd DetectKbdGen.\n"
+
+
 # ------------------------------------------------------------------ output
 GROUPS = {
     "mw": (os.path.join("gen", "DetectMw_gen.v"), render_mw),
     "email": (os.path.join("gen", "DetectEmail_gen.v"), render_email),
     "web": (os.path.join("gen", "DetectWeb_gen.v"), render_web),
+    "kbd": (os.path.join("gen", "DetectKbd_gen.v"), render_kbd),
 }
 
 
